@@ -47,7 +47,7 @@ def main():
                % (wt, PY), env=dict(os.environ, PYTHONDONTWRITEBYTECODE="1"))
         passed = set()
         for line in t.stdout.splitlines():
-            m = re.match(r"PASSED (\S+)", line)
+            m = re.match(r"PASSED (.+?)\s*$", line)
             if m:
                 f, _, rest = m.group(1).partition("::")
                 passed.add(f[:-3].replace("/", ".") + "::" + rest)
